@@ -23,9 +23,11 @@
 //!  * `C20:two-workers`          more than one fetcher invocation for a pair before any removal of that pair;
 //!  * `C20:worker-not-stopped`   tokio tasks still alive / fetcher not dropped after the manager was dropped and
 //!                               all lookups finished;
+//!  * `C20:path-after-drop`      a held `PathSetHandle` that, after the drop and the end of all tasks, does not show
+//!                               initialized ∧ ¬ongoing ∧ exit error ∧ empty active slot;
 //!  * `C20:bad-result`, `C20:panic`  a caller returned something that is neither a served path nor an error.
 use std::{
-    collections::{HashMap, VecDeque},
+    collections::{HashMap, HashSet, VecDeque},
     sync::{
         Arc, Mutex,
         atomic::{AtomicBool, Ordering},
@@ -36,7 +38,7 @@ use std::{
 use scion_stack::path::{
     PathStrategy,
     fetcher::traits::{PathFetchError, PathFetcher},
-    manager::{MultiPathManager, MultiPathManagerConfig, traits::{PathManager, PathWaitError}},
+    manager::{MultiPathManager, MultiPathManagerConfig, traits::{PathManager, PathWaitError}, verif_sched::VerifHandle},
 };
 use sciparse::{
     address::ip_addr::ScionIpAddr,
@@ -55,6 +57,9 @@ use verif_harness::*;
 #[derive(Clone, Copy, PartialEq, Eq, Debug)]
 enum Resp {
     Ok,
+    /// a path that is about to expire: cached, but never made active; the worker refetches after
+    /// `min_refetch_delay`
+    Near,
     Empty,
     Err,
 }
@@ -62,6 +67,7 @@ impl Resp {
     fn s(self) -> &'static str {
         match self {
             Resp::Ok => "ok",
+            Resp::Near => "near",
             Resp::Empty => "empty",
             Resp::Err => "err",
         }
@@ -73,6 +79,11 @@ enum Kind {
     Path,
     PathWait,
     Cached,
+    /// `PathSetHandle::active_path()` + `current_error()` on a bare handle (verif-hooks): the newest handle the
+    /// harness knows for the pair
+    Handle,
+    /// … the oldest one (possibly of a worker that was removed / has exited long ago)
+    HandleOld,
 }
 
 #[derive(Clone, Debug, PartialEq)]
@@ -82,6 +93,7 @@ enum Op {
     Stop { key: usize },
     DropMgr,
     IdleWait,
+    RefetchWait,
     ReleaseAll { resp: Resp },
     Sync,
 }
@@ -94,6 +106,9 @@ struct Sched {
     idle_ms: u64,
     /// max_cached_paths_per_pair (None = default 50)
     cap: Option<usize>,
+    /// min_refetch_delay in ms (0 = default 60 s): a worker whose last lookup returned only near-expiry
+    /// paths refetches after this delay
+    refetch_ms: u64,
     ops: Vec<Op>,
 }
 
@@ -108,24 +123,28 @@ fn sched_line(s: &Sched) -> String {
                     Kind::Path => "p",
                     Kind::PathWait => "w",
                     Kind::Cached => "c",
+                    Kind::Handle => "h",
+                    Kind::HandleOld => "o",
                 }
             ),
             Op::Release { key, resp } => format!("R.{key}.{}", resp.s()),
             Op::Stop { key } => format!("T.{key}"),
             Op::DropMgr => "D".into(),
             Op::IdleWait => "I".into(),
+            Op::RefetchWait => "W".into(),
             Op::ReleaseAll { resp } => format!("A.{}", resp.s()),
             Op::Sync => "Y".into(),
         })
         .collect();
     format!(
-        "rt={} idle={}{} ops={}",
+        "rt={} idle={}{}{} ops={}",
         if s.threads == 0 { "ct".to_string() } else { format!("mt{}", s.threads) },
         s.idle_ms,
         match s.cap {
             Some(c) => format!(" cap={c}"),
             None => String::new(),
         },
+        if s.refetch_ms > 0 { format!(" refetch={}", s.refetch_ms) } else { String::new() },
         ops.join(";")
     )
 }
@@ -133,6 +152,7 @@ fn sched_line(s: &Sched) -> String {
 fn parse_resp(s: &str) -> Option<Resp> {
     match s {
         "ok" => Some(Resp::Ok),
+        "near" => Some(Resp::Near),
         "empty" => Some(Resp::Empty),
         "err" => Some(Resp::Err),
         _ => None,
@@ -143,6 +163,7 @@ fn parse_sched(line: &str) -> Option<Sched> {
     let mut threads = 0usize;
     let mut idle_ms = 0u64;
     let mut cap = None;
+    let mut refetch_ms = 0u64;
     let mut ops = vec![];
     for tok in line.split_whitespace() {
         let (k, v) = tok.split_once('=')?;
@@ -152,6 +173,7 @@ fn parse_sched(line: &str) -> Option<Sched> {
             }
             "idle" => idle_ms = v.parse().ok()?,
             "cap" => cap = Some(v.parse().ok()?),
+            "refetch" => refetch_ms = v.parse().ok()?,
             "ops" => {
                 for o in v.split(';').filter(|x| !x.is_empty()) {
                     let p: Vec<&str> = o.split('.').collect();
@@ -161,6 +183,8 @@ fn parse_sched(line: &str) -> Option<Sched> {
                                 "p" => Kind::Path,
                                 "w" => Kind::PathWait,
                                 "c" => Kind::Cached,
+                                "h" => Kind::Handle,
+                                "o" => Kind::HandleOld,
                                 _ => return None,
                             },
                             key: key.parse().ok()?,
@@ -170,6 +194,7 @@ fn parse_sched(line: &str) -> Option<Sched> {
                         ["T", key] => Op::Stop { key: key.parse().ok()? },
                         ["D"] => Op::DropMgr,
                         ["I"] => Op::IdleWait,
+                        ["W"] => Op::RefetchWait,
                         ["A", r] => Op::ReleaseAll { resp: parse_resp(r)? },
                         ["Y"] => Op::Sync,
                         _ => return None,
@@ -180,7 +205,7 @@ fn parse_sched(line: &str) -> Option<Sched> {
             _ => return None,
         }
     }
-    Some(Sched { threads, idle_ms, cap, ops })
+    Some(Sched { threads, idle_ms, cap, refetch_ms, ops })
 }
 
 // ---------------------------------------------------------------------------------------------------------
@@ -193,15 +218,17 @@ fn key_pair(k: usize) -> (IsdAsn, IsdAsn) {
     (IsdAsn::new(Isd(1), Asn(1)), IsdAsn::new(Isd(2), Asn(10 + k as u64)))
 }
 
-fn mk_path(key: usize, id: u32) -> ScionPath {
+fn mk_path(key: usize, id: u32, near: bool) -> ScionPath {
     let (src, dst) = key_pair(key);
     let s = ScionIpAddr::new(src, std::net::IpAddr::V4(std::net::Ipv4Addr::LOCALHOST));
     let d = ScionIpAddr::new(dst, std::net::IpAddr::V4(std::net::Ipv4Addr::new(127, 0, 0, 2)));
-    let ts = SystemTime::now().duration_since(SystemTime::UNIX_EPOCH).unwrap().as_secs() as u32;
+    let now = SystemTime::now().duration_since(SystemTime::UNIX_EPOCH).unwrap().as_secs() as u32;
+    // hop expiry unit = 337.5 s: near = expires in ~137 s (< min_expiry_threshold = 300 s), else in ~9 h
+    let (ts, exp) = if near { (now - 200, 0u8) } else { (now, 100u8) };
     let h = (id % 60000) as u16;
     TestPathBuilder::new(s.into(), d.into())
         .using_info_timestamp(ts)
-        .with_hop_expiry(100)
+        .with_hop_expiry(exp)
         .up()
         .add_hop(0, 1)
         .with_asn(1000 + id)
@@ -301,8 +328,8 @@ impl PathFetcher for GFetcher {
             kg.assigned.remove(&ticket).expect("released ticket has a response")
         };
         match resp {
-            Resp::Ok => {
-                let p = mk_path(key, id);
+            Resp::Ok | Resp::Near => {
+                let p = mk_path(key, id, resp == Resp::Near);
                 self.0.served.lock().unwrap().insert(id, (key, p.clone()));
                 Ok(vec![p])
             }
@@ -316,7 +343,62 @@ impl PathFetcher for GFetcher {
 // the real side
 // ---------------------------------------------------------------------------------------------------------
 
+/// what the harness can see of a caller task from outside: polled at least once, not being polled right
+/// now, no wake-up pending.  (Under load a runtime thread may be descheduled for milliseconds in the middle of
+/// `path()`; "nothing observable changes" alone is not a reliable sign of quiescence.)
+#[derive(Default)]
+struct ProbeState {
+    polls: std::sync::atomic::AtomicUsize,
+    polling: AtomicBool,
+    woken: AtomicBool,
+    done: AtomicBool,
+}
+
+struct ProbeWaker {
+    inner: std::task::Waker,
+    st: Arc<ProbeState>,
+}
+impl std::task::Wake for ProbeWaker {
+    fn wake(self: Arc<Self>) {
+        self.st.woken.store(true, Ordering::SeqCst);
+        self.inner.wake_by_ref();
+    }
+    fn wake_by_ref(self: &Arc<Self>) {
+        self.st.woken.store(true, Ordering::SeqCst);
+        self.inner.wake_by_ref();
+    }
+}
+
+struct Probe<F> {
+    inner: std::pin::Pin<Box<F>>,
+    st: Arc<ProbeState>,
+}
+impl<F: std::future::Future> std::future::Future for Probe<F> {
+    type Output = F::Output;
+    fn poll(mut self: std::pin::Pin<&mut Self>, cx: &mut std::task::Context<'_>) -> std::task::Poll<F::Output> {
+        let st = self.st.clone();
+        st.polling.store(true, Ordering::SeqCst);
+        st.woken.store(false, Ordering::SeqCst);
+        let waker = std::task::Waker::from(Arc::new(ProbeWaker { inner: cx.waker().clone(), st: st.clone() }));
+        let mut cx2 = std::task::Context::from_waker(&waker);
+        let r = self.inner.as_mut().poll(&mut cx2);
+        if r.is_ready() {
+            st.done.store(true, Ordering::SeqCst);
+        }
+        st.polls.fetch_add(1, Ordering::SeqCst);
+        st.polling.store(false, Ordering::SeqCst);
+        r
+    }
+}
+impl ProbeState {
+    fn settled(&self) -> bool {
+        self.done.load(Ordering::SeqCst)
+            || (self.polls.load(Ordering::SeqCst) > 0 && !self.polling.load(Ordering::SeqCst) && !self.woken.load(Ordering::SeqCst))
+    }
+}
+
 struct RealWaiter {
+    probe: Arc<ProbeState>,
     kind: Kind,
     key: usize,
     handle: tokio::task::JoinHandle<String>,
@@ -345,6 +427,43 @@ fn classify_err(gate: &GateShared, e: &PathFetchError) -> String {
     }
 }
 
+/// class of a `current_error` display string (verif-hooks `sync_state`)
+fn classify_err_text(t: &str) -> String {
+    if t == "no paths found" {
+        "noPaths".into()
+    } else if let Some(m) = t.strip_prefix("internal error: ") {
+        if let Some(r) = m.strip_prefix("PathSet task exited: ") {
+            match r {
+                "idle" => "exited:idle".into(),
+                "cancelled" => "exited:cancelled".into(),
+                "manager dropped" => "exited:mgrGone".into(),
+                o => format!("exited:?{o}"),
+            }
+        } else if m == "mock lookup failure" {
+            "fetchFailed".into()
+        } else {
+            format!("?{m}")
+        }
+    } else {
+        format!("?{t}")
+    }
+}
+
+fn handle_state(gate: &GateShared, key: usize, h: &VerifHandle) -> String {
+    let st = h.sync_state();
+    let active = match &st.active {
+        Some(p) => classify_path(gate, key, p).trim_start_matches("path:").to_string(),
+        None => "-".into(),
+    };
+    format!(
+        "init={} ongoing={} err={} active={}",
+        st.initialized as u8,
+        st.ongoing as u8,
+        st.error.as_deref().map(classify_err_text).unwrap_or_else(|| "-".into()),
+        active
+    )
+}
+
 fn classify_path(gate: &GateShared, key: usize, p: &ScionPath) -> String {
     let served = gate.served.lock().unwrap();
     for (id, (k, sp)) in served.iter() {
@@ -362,6 +481,11 @@ struct Real {
     threads: usize,
     /// a removal of the pair has been requested / may have happened (stop, idle wait, drop)
     removal_possible: Vec<bool>,
+    /// handles captured at synchronisation points: (pair, handle, index of the worker in the model)
+    handles: Vec<(usize, VerifHandle, usize)>,
+    idle_ms: u64,
+    refetch_ms: u64,
+    t0: Instant,
 }
 
 #[derive(Clone, PartialEq, Debug)]
@@ -371,15 +495,40 @@ struct Obs {
     ends: Vec<usize>,
     dropped: bool,
     alive_tasks: usize,
+    /// caller tasks that have not been polled yet, are being polled, or have a wake-up pending
+    busy: usize,
 }
 
 impl Real {
+    /// the handle a `Handle` / `HandleOld` caller would use, with the model index of its worker
+    fn pick_handle(&self, kind: Kind, key: usize) -> Option<(VerifHandle, usize)> {
+        let mut it = self.handles.iter().filter(|(k, _, _)| *k == key);
+        let h = if kind == Kind::HandleOld { it.next() } else { it.last() };
+        h.map(|(_, h, i)| (h.clone(), *i))
+    }
+
+    fn spawn_handle(&mut self, kind: Kind, key: usize, h: VerifHandle) {
+        let gate = self.gate.clone();
+        let probe = Arc::new(ProbeState::default());
+        let fut = async move {
+            match h.path().await {
+                Ok(p) => classify_path(&gate, key, &p),
+                Err(Some(e)) => classify_err(&gate, &e),
+                Err(None) => "err:noPaths".into(),
+            }
+        };
+        let handle = tokio::spawn(Probe { inner: Box::pin(fut), st: probe.clone() });
+        self.waiters.push(RealWaiter { probe, kind, key, handle, result: None });
+    }
+
     fn spawn(&mut self, kind: Kind, key: usize) {
         let mgr = self.mgr.as_ref().expect("spawn after drop").clone();
         let gate = self.gate.clone();
         let (src, dst) = key_pair(key);
-        let handle = tokio::spawn(async move {
+        let probe = Arc::new(ProbeState::default());
+        let fut = async move {
             let out = match kind {
+                Kind::Handle | Kind::HandleOld => unreachable!(),
                 Kind::Path => match mgr.path(src, dst, SystemTime::now()).await {
                     Ok(p) => classify_path(&gate, key, &p),
                     Err(e) => classify_err(&gate, &e),
@@ -397,8 +546,9 @@ impl Real {
             };
             drop(mgr);
             out
-        });
-        self.waiters.push(RealWaiter { kind, key, handle, result: None });
+        };
+        let handle = tokio::spawn(Probe { inner: Box::pin(fut), st: probe.clone() });
+        self.waiters.push(RealWaiter { probe, kind, key, handle, result: None });
     }
 
     async fn collect(&mut self) {
@@ -420,6 +570,7 @@ impl Real {
             ends: self.gate.ends(),
             dropped: self.gate.dropped.load(Ordering::SeqCst),
             alive_tasks: tokio::runtime::Handle::current().metrics().num_alive_tasks(),
+            busy: self.waiters.iter().filter(|w| !w.probe.settled()).count(),
         }
     }
 
@@ -438,7 +589,7 @@ impl Real {
                 tokio::time::sleep(Duration::from_micros(250)).await;
             }
             let o = self.observe().await;
-            if o == last {
+            if o == last && o.busy == 0 {
                 stable += 1;
                 if stable >= need {
                     return o;
@@ -461,8 +612,8 @@ impl Real {
 struct MWorker {
     key: usize,
     resp: Option<(Resp, u32)>,
-    /// the idle timer of this worker is assumed to have fired (IdleWait)
-    idle_due: bool,
+    /// some lookup of this worker returned a near-expiry path (it stays cached ⇒ the worker keeps refetching)
+    ever_near: bool,
 }
 
 struct Model<'a> {
@@ -472,11 +623,21 @@ struct Model<'a> {
     /// first action the model refused
     refused: Option<String>,
     workers: Vec<MWorker>,
-    /// responses released by the harness that the model has not consumed yet, per key
-    released: Vec<VecDeque<(Resp, u32)>>,
+    /// mirror of the gate: workers with a pending lookup per pair, in the order they started it
+    inflight: Vec<VecDeque<usize>>,
+    /// responses armed before any lookup of the pair was pending (taken by the next lookup that starts)
+    prearmed: Vec<VecDeque<(Resp, u32)>>,
+    /// responses handed to a pending lookup of worker i
+    assigned: HashMap<usize, VecDeque<(Resp, u32)>>,
     n_waiters: usize,
     done: Vec<bool>,
     actions: u64,
+    /// timers assumed to have fired: (worker, 1 = idle check finds the pair unused | 2 = refetch)
+    timer_due: HashSet<(usize, u8)>,
+    /// observed exit reason of a worker whose handle the harness holds (verif-hooks)
+    exit_hint: HashMap<usize, String>,
+    /// how often each model action was executed (committed or tried) – branch coverage of the model
+    counts: HashMap<String, u64>,
 }
 
 fn field<'b>(line: &'b str, name: &str) -> &'b str {
@@ -498,10 +659,15 @@ impl<'a> Model<'a> {
             log: vec![],
             refused: None,
             workers: vec![],
-            released: (0..NKEYS).map(|_| VecDeque::new()).collect(),
+            inflight: (0..NKEYS).map(|_| VecDeque::new()).collect(),
+            prearmed: (0..NKEYS).map(|_| VecDeque::new()).collect(),
+            assigned: HashMap::new(),
             n_waiters: 0,
             done: vec![],
             actions: 0,
+            timer_due: HashSet::new(),
+            exit_hint: HashMap::new(),
+            counts: HashMap::new(),
         }
     }
     fn enabled(&self) -> bool {
@@ -525,6 +691,20 @@ impl<'a> Model<'a> {
         let r = self.ask(req);
         self.actions += 1;
         if r.starts_with("ok") {
+            let mut it = req.split_whitespace();
+            let name = match (it.next(), it.next(), it.next(), it.next()) {
+                (Some("w"), _, Some(a), arg) => match (a, arg) {
+                    ("fetchDone", Some(x)) => format!("worker fetchDone({x})"),
+                    ("publishActive", Some(x)) | ("cacheStore", Some(x)) | ("issueRx", Some(x)) => {
+                        format!("worker {a}({})", if x.starts_with("set") { "set" } else { x })
+                    }
+                    ("tickNothing", Some(x)) => format!("worker tickNothing({x})"),
+                    _ => format!("worker {a}"),
+                },
+                (Some("m"), Some(a), _, _) => format!("manager {a}"),
+                _ => "other".into(),
+            };
+            *self.counts.entry(name).or_insert(0) += 1;
             true
         } else {
             if self.refused.is_none() {
@@ -532,6 +712,19 @@ impl<'a> Model<'a> {
             }
             false
         }
+    }
+    /// mirror of `GateShared::release`
+    fn release(&mut self, key: usize, resp: Resp, id: u32) {
+        if let Some(i) = self.inflight[key].pop_front() {
+            self.assigned.entry(i).or_default().push_back((resp, id));
+        } else {
+            self.prearmed[key].push_back((resp, id));
+        }
+    }
+    fn spawn_handle(&mut self, i: usize) {
+        self.act(&format!("m spawnHandle {i}"));
+        self.n_waiters += 1;
+        self.done.push(false);
     }
     fn spawn(&mut self, kind: Kind, key: usize) {
         let a = match kind {
@@ -554,7 +747,12 @@ impl<'a> Model<'a> {
             if r.starts_with("ok") {
                 self.actions += 1;
                 progress = true;
+                let name = format!("caller {}", r.trim_start_matches("ok "));
+                *self.counts.entry(name).or_insert(0) += 1;
                 continue;
+            }
+            if r == "blocked" {
+                *self.counts.entry("caller blocked (registered, not yet notified)".into()).or_insert(0) += 1;
             }
             if r == "disabled" {
                 let q = self.ask(&format!("q t {j}"));
@@ -572,7 +770,7 @@ impl<'a> Model<'a> {
             let i = self.workers.len();
             let q = self.ask(&format!("q w {i}"));
             let key = field(&q, "key").parse().unwrap_or(0);
-            self.workers.push(MWorker { key, resp: None, idle_due: false });
+            self.workers.push(MWorker { key, resp: None, ever_near: false });
         }
     }
     /// callers whose real result is known and who would obtain exactly that result if they ran now
@@ -605,11 +803,22 @@ impl<'a> Model<'a> {
         let key = self.workers[i].key;
         let a: Option<String> = match pc.as_str() {
             "start" => Some(if alive { "upgradeStart".into() } else { "mgrGone".into() }),
-            "setOngoing" => Some("setOngoing".into()),
+            "setOngoing" => {
+                // the lookup starts: it takes an armed response, or queues up at the gate
+                if let Some(r) = self.prearmed[key].pop_front() {
+                    self.assigned.entry(i).or_default().push_back(r);
+                } else {
+                    self.inflight[key].push_back(i);
+                }
+                Some("setOngoing".into())
+            }
             "fetching" => {
-                if let Some(r) = self.released[key].pop_front() {
+                if let Some(r) = self.assigned.get_mut(&i).and_then(|q| q.pop_front()) {
                     self.workers[i].resp = Some(r);
-                    Some(format!("fetchDone {}", r.0.s()))
+                    if r.0 == Resp::Near {
+                        self.workers[i].ever_near = true;
+                    }
+                    Some(format!("fetchDone {}", if r.0 == Resp::Near { "ok" } else { r.0.s() }))
                 } else {
                     None
                 }
@@ -617,17 +826,27 @@ impl<'a> Model<'a> {
             p if p.starts_with("cache:") => Some("cacheStore keep".into()),
             p if p.starts_with("setErr:") => Some("setErr".into()),
             "publish" => Some(match self.workers[i].resp {
-                Some((Resp::Ok, id)) => format!("publishActive set:{id}"),
+                // an existing (valid) active path is kept: equal scores, no swap
+                Some((Resp::Ok, id)) if field(&q, "active") == "-" => format!("publishActive set:{id}"),
                 _ => "publishActive keep".into(),
             }),
             "clear" => Some("clearAndNotify".into()),
             "release" => Some("releaseMgr".into()),
             "loop" => {
-                if cancelled {
+                // manager gone: `select!` may see the fired token ("cancelled") or the closed issue channel
+                // with a failing upgrade ("manager dropped") first – the model allows both; take the observed one
+                let hint_gone = self.exit_hint.get(&i).map(|h| h == "mgrGone").unwrap_or(false);
+                if cancelled && !(hint_gone && !alive) {
                     Some("cancelSeen".into())
                 } else if !alive {
                     Some("mgrGone".into())
-                } else if self.workers[i].idle_due {
+                } else if (self.timer_due.contains(&(i, 2)) || self.timer_due.contains(&(i, 3))) && self.workers[i].ever_near {
+                    // (i,3): a second refetch in the same window (the first one took an armed response)
+                    if !self.timer_due.remove(&(i, 2)) {
+                        self.timer_due.remove(&(i, 3));
+                    }
+                    Some("tickRefetch".into())
+                } else if self.timer_due.contains(&(i, 1)) {
                     if used {
                         Some("tickNothing 1".into())
                     } else {
@@ -694,13 +913,22 @@ impl<'a> Model<'a> {
                     }
                 }
             }
-            if !progress || self.refused.is_some() {
+            if self.refused.is_some() {
                 break;
             }
+            if !progress {
+                // late timers: an idle exit that happened after the callers of this window had run
+                let late: Vec<usize> = self.timer_due.iter().filter(|(_, k)| *k == 4).map(|(i, _)| *i).collect();
+                if late.is_empty() {
+                    break;
+                }
+                for i in late {
+                    self.timer_due.remove(&(i, 4));
+                    self.timer_due.insert((i, 1));
+                }
+            }
         }
-        for w in self.workers.iter_mut() {
-            w.idle_due = false;
-        }
+        self.timer_due.clear();
     }
     /// back to the model state saved at the beginning of the current synchronisation point
     fn rewind(&mut self, sv: &Saved) {
@@ -710,13 +938,16 @@ impl<'a> Model<'a> {
         self.ask("restore");
         self.ask("save");
         self.refused = None;
-        self.released = sv.released.clone();
+        self.inflight = sv.inflight.clone();
+        self.prearmed = sv.prearmed.clone();
+        self.assigned = sv.assigned.clone();
         self.done = sv.done.clone();
         self.workers.truncate(sv.nworkers);
         for (i, w) in self.workers.iter_mut().enumerate() {
             w.resp = sv.resp[i];
-            w.idle_due = sv.idle[i];
+            w.ever_near = sv.ever_near[i];
         }
+        self.timer_due = sv.timer_due.clone();
         self.actions = sv.actions;
     }
     /// workers that were removed from the map but whose cancel token has not fired and that still run
@@ -734,6 +965,21 @@ impl<'a> Model<'a> {
             let key = self.workers[i].key;
             let e = self.ask(&format!("q k {key}"));
             if field(&e, "entry") != i.to_string() {
+                v.push(i);
+            }
+        }
+        v
+    }
+    /// workers that have not finished (they may reach their `select!` loop during this synchronisation point)
+    fn loop_workers(&mut self) -> Vec<usize> {
+        if !self.enabled() {
+            return vec![];
+        }
+        self.sync_workers();
+        let mut v = vec![];
+        for i in 0..self.workers.len() {
+            let q = self.ask(&format!("q w {i}"));
+            if field(&q, "pc") != "done" {
                 v.push(i);
             }
         }
@@ -768,7 +1014,7 @@ impl<'a> Model<'a> {
                 alive_tasks += 1;
             }
         }
-        (Obs { finished, starts, ends, dropped: !alive, alive_tasks }, results)
+        (Obs { finished, starts, ends, dropped: !alive, alive_tasks, busy: 0 }, results)
     }
 }
 
@@ -790,6 +1036,12 @@ struct Outcome {
     syncs: usize,
     retries: usize,
     reclaims: usize,
+    handle_callers: usize,
+    handle_states: usize,
+    handles_after_drop: usize,
+    counts: HashMap<String, u64>,
+    /// at a failed synchronisation point: the mismatch of every candidate witness tried last
+    cand_mm: Vec<String>,
     trace_tail: Vec<String>,
 }
 
@@ -814,6 +1066,9 @@ async fn run_sched_async(s: &Sched, lean: &mut Lean) -> Outcome {
     if let Some(c) = s.cap {
         cfg = cfg.with_max_cached_paths_per_pair(c);
     }
+    if s.refetch_ms > 0 {
+        cfg = cfg.with_min_refetch_delay(Duration::from_millis(s.refetch_ms));
+    }
     let mgr = match MultiPathManager::new(cfg, GFetcher(gate.clone()), PathStrategy::default()) {
         Ok(m) => m,
         Err(e) => {
@@ -822,14 +1077,29 @@ async fn run_sched_async(s: &Sched, lean: &mut Lean) -> Outcome {
         }
     };
     let base_tasks = tokio::runtime::Handle::current().metrics().num_alive_tasks();
-    let mut real = Real { gate: gate.clone(), mgr: Some(mgr), waiters: vec![], threads: s.threads, removal_possible: vec![false; NKEYS] };
+    let mut real = Real { gate: gate.clone(), mgr: Some(mgr), waiters: vec![], threads: s.threads, removal_possible: vec![false; NKEYS], handles: vec![], idle_ms: s.idle_ms, refetch_ms: s.refetch_ms, t0: Instant::now() };
     let mut model = Model::new(lean);
     let mut next_id: u32 = 1;
     let mut ops: Vec<Op> = s.ops.clone();
     // every schedule ends with: finish all lookups, drop, synchronise
     ops.push(Op::Sync);
-    ops.push(Op::ReleaseAll { resp: Resp::Ok });
-    ops.push(Op::DropMgr);
+    if s.refetch_ms > 0 || s.ops.len() % 3 == 0 {
+        // drop while lookups are still pending (in refetch schedules always: a worker that keeps refetching
+        // near-expiry paths would otherwise start the next lookup before the drop)
+        ops.push(Op::DropMgr);
+        ops.push(Op::ReleaseAll { resp: Resp::Ok });
+    } else {
+        ops.push(Op::ReleaseAll { resp: Resp::Ok });
+        ops.push(Op::DropMgr);
+    }
+    if s.ops.len() % 2 == 0 {
+        ops.push(Op::Sync);
+    }
+    // after the drop: every handle the harness still holds reports the exit error
+    for key in 0..NKEYS {
+        ops.push(Op::Spawn { kind: Kind::HandleOld, key, n: 1 });
+        ops.push(Op::Spawn { kind: Kind::Handle, key, n: 1 });
+    }
     ops.push(Op::Sync);
     let mut k = 0;
     while k < ops.len() {
@@ -837,6 +1107,17 @@ async fn run_sched_async(s: &Sched, lean: &mut Lean) -> Outcome {
         k += 1;
         match op {
             Op::Spawn { kind, key, n } => {
+                if kind == Kind::Handle || kind == Kind::HandleOld {
+                    // callers on a bare handle: possible also after the manager was dropped
+                    if let Some((h, i)) = real.pick_handle(kind, key) {
+                        for _ in 0..n {
+                            model.spawn_handle(i);
+                            real.spawn_handle(kind, key, h.clone());
+                        }
+                        out.handle_callers += n;
+                    }
+                    continue;
+                }
                 if real.mgr.is_none() {
                     continue;
                 }
@@ -848,8 +1129,13 @@ async fn run_sched_async(s: &Sched, lean: &mut Lean) -> Outcome {
             Op::Release { key, resp } => {
                 let id = next_id;
                 next_id += 1;
-                real.gate.release(key, resp, id);
-                model.released[key].push_back((resp, id));
+                // refetch schedules: a stale worker that keeps refetching and its successor may both have a lookup
+                // pending, and which of them started first is not observable: complete all of them alike
+                let n = if s.refetch_ms > 0 { real.gate.pending()[key].max(1) } else { 1 };
+                for _ in 0..n {
+                    real.gate.release(key, resp, id);
+                    model.release(key, resp, id);
+                }
             }
             Op::Stop { key } => {
                 if let Some(m) = real.mgr.as_ref() {
@@ -877,9 +1163,17 @@ async fn run_sched_async(s: &Sched, lean: &mut Lean) -> Outcome {
                 for r in real.removal_possible.iter_mut() {
                     *r = true;
                 }
-                for w in model.workers.iter_mut() {
-                    w.idle_due = true;
+                for i in 0..model.workers.len() + 2 {
+                    model.timer_due.insert((i, 1));
                 }
+                sync_point(&mut real, &mut model, &mut out, base_tasks).await;
+            }
+            Op::RefetchWait => {
+                if s.refetch_ms == 0 {
+                    continue;
+                }
+                sync_point(&mut real, &mut model, &mut out, base_tasks).await;
+                tokio::time::sleep(Duration::from_millis(s.refetch_ms + 25)).await;
                 sync_point(&mut real, &mut model, &mut out, base_tasks).await;
             }
             Op::ReleaseAll { resp } => {
@@ -890,11 +1184,13 @@ async fn run_sched_async(s: &Sched, lean: &mut Lean) -> Outcome {
                         break;
                     }
                     for (key, p) in pend.iter().enumerate() {
+                        // one path id per pair and round: which of two pending lookups of the same pair (a stale
+                        // worker refetching + its successor) started first is not observable
+                        let id = next_id;
+                        next_id += 1;
                         for _ in 0..*p {
-                            let id = next_id;
-                            next_id += 1;
                             real.gate.release(key, resp, id);
-                            model.released[key].push_back((resp, id));
+                            model.release(key, resp, id);
                         }
                     }
                     sync_point(&mut real, &mut model, &mut out, base_tasks).await;
@@ -918,6 +1214,15 @@ async fn run_sched_async(s: &Sched, lean: &mut Lean) -> Outcome {
             } else if o.alive_tasks > base_tasks {
                 out.spec.push(("C20:worker-not-stopped".into(), format!("{} tokio task(s) still alive after the manager was dropped and all lookups finished", o.alive_tasks - base_tasks)));
             }
+            // every handle reports an error instead of a path
+            for (k, h, i) in &real.handles {
+                let st = handle_state(&real.gate, *k, h);
+                let ok = st.starts_with("init=1 ongoing=0 err=exited:") && st.ends_with("active=-") && !st.contains('?');
+                if !ok {
+                    out.spec.push(("C20:path-after-drop".into(), format!("handle of worker {i} (pair {k}) after the manager was dropped and every task ended: {st}")));
+                }
+                out.handles_after_drop += 1;
+            }
         }
     }
     real.collect().await;
@@ -937,6 +1242,7 @@ async fn run_sched_async(s: &Sched, lean: &mut Lean) -> Outcome {
     out.fetches = real.gate.starts().iter().sum();
     out.workers = model.workers.len();
     out.model_actions = model.actions;
+    out.counts = model.counts.clone();
     if out.disagree.is_none() {
         if let Some(r) = model.refused.take() {
             out.disagree = Some(("model refused an action of the witness schedule".into(), "enabled in the implementation".into(), r));
@@ -951,15 +1257,24 @@ async fn run_sched_async(s: &Sched, lean: &mut Lean) -> Outcome {
 }
 
 struct Saved {
-    released: Vec<VecDeque<(Resp, u32)>>,
+    inflight: Vec<VecDeque<usize>>,
+    prearmed: Vec<VecDeque<(Resp, u32)>>,
+    assigned: HashMap<usize, VecDeque<(Resp, u32)>>,
+    ever_near: Vec<bool>,
     done: Vec<bool>,
     nworkers: usize,
     resp: Vec<Option<(Resp, u32)>>,
-    idle: Vec<bool>,
+    timer_due: HashSet<(usize, u8)>,
     actions: u64,
 }
 
-fn compare(model: &mut Model<'_>, real_o: &Obs, results: &[Option<String>]) -> Option<(String, String, String)> {
+fn compare(
+    model: &mut Model<'_>,
+    real_o: &Obs,
+    results: &[Option<String>],
+    hstates: &[(usize, String)],
+    managed: &[(usize, bool, Option<usize>)],
+) -> Option<(String, String, String)> {
     if !model.enabled() {
         return None;
     }
@@ -971,7 +1286,11 @@ fn compare(model: &mut Model<'_>, real_o: &Obs, results: &[Option<String>]) -> O
         let j = (0..real_o.finished.len().max(mo.finished.len()))
             .find(|j| real_o.finished.get(*j) != mo.finished.get(*j))
             .unwrap_or(0);
-        return Some((format!("caller {j} finished?"), format!("{:?}", real_o.finished.get(j)), format!("{:?}", mo.finished.get(j))));
+        return Some((
+            format!("caller {j} finished?"),
+            format!("{:?} result {:?}", real_o.finished.get(j), results.get(j).cloned().flatten()),
+            format!("{:?} result {:?}", mo.finished.get(j), mres.get(j).cloned().flatten()),
+        ));
     }
     if let Some(j) = (0..results.len()).find(|j| results[*j] != mres[*j]) {
         return Some((format!("result of caller {j}"), format!("{:?}", results[j]), format!("{:?}", mres[j])));
@@ -984,6 +1303,27 @@ fn compare(model: &mut Model<'_>, real_o: &Obs, results: &[Option<String>]) -> O
     }
     if real_o.alive_tasks != mo.alive_tasks {
         return Some(("live tasks (callers + workers)".into(), format!("{}", real_o.alive_tasks), format!("{}", mo.alive_tasks)));
+    }
+    // handshake state of every path set the harness holds a handle of (verif-hooks)
+    for (i, st) in hstates {
+        let q = model.ask(&format!("q w {i}"));
+        let m = format!("init={} ongoing={} err={} active={}", field(&q, "init"), field(&q, "ongoing"), field(&q, "err"), field(&q, "active"));
+        if *st != m {
+            return Some((format!("handshake state of worker {i}"), st.clone(), m));
+        }
+    }
+    // the manager's index
+    for (key, is_managed, known) in managed {
+        let q = model.ask(&format!("q k {key}"));
+        let e = field(&q, "entry").to_string();
+        if *is_managed != (e != "-") {
+            return Some((format!("pair {key} managed?"), format!("{is_managed}"), format!("entry={e}")));
+        }
+        if let Some(i) = known {
+            if e != i.to_string() {
+                return Some((format!("worker registered for pair {key}"), format!("{i}"), format!("entry={e}")));
+            }
+        }
     }
     None
 }
@@ -998,28 +1338,80 @@ async fn sync_point(real: &mut Real, model: &mut Model<'_>, out: &mut Outcome, b
         model.ask("save");
     }
     let saved = Saved {
-        released: model.released.clone(),
+        inflight: model.inflight.clone(),
+        prearmed: model.prearmed.clone(),
+        assigned: model.assigned.clone(),
+        ever_near: model.workers.iter().map(|w| w.ever_near).collect(),
         done: model.done.clone(),
         nworkers: model.workers.len(),
         resp: model.workers.iter().map(|w| w.resp).collect(),
-        idle: model.workers.iter().map(|w| w.idle_due).collect(),
+        timer_due: model.timer_due.clone(),
         actions: model.actions,
     };
     let mut attempt = 0;
     'outer: loop {
         let results: Vec<Option<String>> = real.waiters.iter().map(|w| w.result.clone()).collect();
         let real_o = Obs { alive_tasks: o.alive_tasks.saturating_sub(base_tasks), ..o.clone() };
+        let hstates: Vec<(usize, String)> = real.handles.iter().map(|(k, h, i)| (*i, handle_state(&real.gate, *k, h))).collect();
+        for (i, st) in &hstates {
+            if let Some(r) = field(st, "err").strip_prefix("exited:") {
+                model.exit_hint.insert(*i, r.to_string());
+            }
+        }
+        let cur: Vec<Option<VerifHandle>> = match real.mgr.as_ref() {
+            Some(m) => (0..NKEYS).map(|k| { let (a, b) = key_pair(k); m.verif_handle(a, b) }).collect(),
+            None => vec![],
+        };
+        let managed: Vec<(usize, bool, Option<usize>)> = cur
+            .iter()
+            .enumerate()
+            .map(|(k, h)| (k, h.is_some(), h.as_ref().and_then(|h| real.handles.iter().find(|(_, hh, _)| hh.same(h)).map(|(_, _, i)| *i))))
+            .collect();
         // candidate sets of removed-but-not-yet-dropped map entries whose `PathSetTask` the collector of
         // scc::HashIndex has dropped by now (cancel token fired): not observable directly, so try them
-        let cands = model.garbage();
-        let mut subsets: Vec<Vec<usize>> = vec![vec![]];
-        for c in &cands {
-            subsets.push(vec![*c]);
+        // … and, in schedules with a short idle period, workers whose idle timer fired earlier than the harness
+        // assumed (`I`): also not observable directly.  Candidate = (worker, is_idle_exit)
+        let mut cands: Vec<(usize, u8)> = model.garbage().into_iter().map(|i| (i, 0u8)).collect();
+        let fresh: Vec<usize> = (model.workers.len()..model.workers.len() + 2).collect();
+        if real.idle_ms > 0 {
+            // a removed worker idling out *after* the callers of this window ran evicts their new worker's entry
+            for i in model.garbage() {
+                cands.push((i, 4));
+            }
+            for i in model.loop_workers().into_iter().chain(fresh.iter().copied()) {
+                cands.push((i, 1));
+            }
         }
-        if cands.len() > 1 {
+        // … and workers whose refetch timer fired (only after a lookup that returned near-expiry paths)
+        if real.refetch_ms > 0 {
+            for i in model.loop_workers().into_iter().chain(fresh.iter().copied()) {
+                cands.push((i, 2));
+                if let Some(w) = model.workers.get(i) {
+                    if !model.prearmed[w.key].is_empty() {
+                        cands.push((i, 3));
+                    }
+                }
+            }
+        }
+        let mut subsets: Vec<Vec<(usize, u8)>> = vec![vec![]];
+        if cands.len() <= 6 {
+            // all subsets, small ones first
+            let mut all: Vec<Vec<(usize, u8)>> = (1u32..(1 << cands.len()))
+                .map(|m| (0..cands.len()).filter(|b| m & (1 << b) != 0).map(|b| cands[b]).collect())
+                .collect();
+            all.sort_by_key(|v: &Vec<(usize, u8)>| v.len());
+            subsets.extend(all);
+        } else {
+            for c in &cands {
+                subsets.push(vec![*c]);
+            }
             subsets.push(cands.clone());
-        }
-        if cands.len() > 2 {
+            for kind in 0..3u8 {
+                let v: Vec<(usize, u8)> = cands.iter().copied().filter(|c| c.1 == kind).collect();
+                if !v.is_empty() && v.len() < cands.len() {
+                    subsets.push(v);
+                }
+            }
             for a in 0..cands.len() {
                 for b in a + 1..cands.len() {
                     subsets.push(vec![cands[a], cands[b]]);
@@ -1031,22 +1423,47 @@ async fn sync_point(real: &mut Real, model: &mut Model<'_>, out: &mut Outcome, b
             if si > 0 {
                 model.rewind(&saved);
             }
-            for i in sub {
-                model.act(&format!("m reclaim {i}"));
+            for (i, what) in sub {
+                match *what {
+                    1 | 2 | 3 | 4 => {
+                        model.timer_due.insert((*i, *what));
+                    }
+                    _ => {
+                        model.act(&format!("m reclaim {i}"));
+                    }
+                }
             }
             model.settle(&results);
-            let mm = compare(model, &real_o, &results);
+            let mm = compare(model, &real_o, &results, &hstates, &managed);
             match mm {
                 None => {
                     if model.enabled() {
                         model.ask("forget");
                     }
-                    if !sub.is_empty() {
-                        out.reclaims += sub.len();
+                    out.reclaims += sub.iter().filter(|(_, w)| *w == 0).count();
+                    out.handle_states += hstates.len();
+                    // remember the handles of newly managed pairs (their worker index comes from the model)
+                    if model.enabled() {
+                        for (k, h) in cur.iter().enumerate() {
+                            if let Some(h) = h {
+                                if !real.handles.iter().any(|(_, hh, _)| hh.same(h)) {
+                                    let q = model.ask(&format!("q k {k}"));
+                                    if let Ok(i) = field(&q, "entry").parse::<usize>() {
+                                        real.handles.push((k, h.clone(), i));
+                                    }
+                                }
+                            }
+                        }
                     }
                     break 'outer;
                 }
                 Some(mm) => {
+                    if std::env::var("HX_SCHED_DEBUG").is_ok() {
+                        eprintln!("[sync {} attempt {attempt}] candidates {:?}: {} impl={} model={}", out.syncs, sub, mm.0, mm.1, mm.2);
+                    }
+                    if Instant::now() > deadline {
+                        out.cand_mm.push(format!("candidates {:?}: {} impl={} model={}", sub, mm.0, mm.1, mm.2));
+                    }
                     if first_mm.is_none() {
                         first_mm = Some(mm);
                     }
@@ -1054,6 +1471,12 @@ async fn sync_point(real: &mut Real, model: &mut Model<'_>, out: &mut Outcome, b
             }
         }
         if Instant::now() > deadline {
+            if std::env::var("HX_SCHED_DEBUG").is_ok() {
+                eprintln!("=== DISAGREEMENT at sync {}: real obs {:?}\n    results {:?}\n    hstates {:?}\n    gate pending {:?} armed {:?}", out.syncs, real_o, results, hstates, real.gate.pending(), real.gate.armed());
+                for l in &model.log {
+                    eprintln!("    {l}");
+                }
+            }
             out.disagree = first_mm;
             if model.enabled() {
                 model.ask("forget");
@@ -1091,9 +1514,15 @@ async fn sync_point(real: &mut Real, model: &mut Model<'_>, out: &mut Outcome, b
         }
     }
     // (2) one worker per pair: before any removal of the pair, at most one fetcher invocation
+    // (with a short idle period a pair that nobody used is removed at the first idle check)
+    if real.idle_ms > 0 && real.t0.elapsed() > Duration::from_millis(real.idle_ms * 3 / 4) {
+        for r in real.removal_possible.iter_mut() {
+            *r = true;
+        }
+    }
     let starts = real.gate.starts();
     for key in 0..NKEYS {
-        if !real.removal_possible[key] && starts[key] > 1 {
+        if !real.removal_possible[key] && starts[key] > 1 && real.refetch_ms == 0 {
             out.spec.push(("C20:two-workers".into(), format!("{} fetcher invocations for pair {key} although it was never removed", starts[key])));
         }
         let any_caller = real.waiters.iter().any(|w| w.key == key);
@@ -1125,15 +1554,80 @@ fn pick_kind(rng: &mut Rng) -> Kind {
     }
 }
 
+/// later in a schedule also callers on bare handles (skipped while the harness holds no handle of the pair)
+fn pick_kind2(rng: &mut Rng) -> Kind {
+    match rng.below(14) {
+        0..=5 => Kind::Path,
+        6..=7 => Kind::PathWait,
+        8..=9 => Kind::Cached,
+        10..=12 => Kind::Handle,
+        _ => Kind::HandleOld,
+    }
+}
+
 fn pick_resp(rng: &mut Rng) -> Resp {
     match rng.below(10) {
-        0..=4 => Resp::Ok,
+        0..=3 => Resp::Ok,
+        4 => Resp::Near,
         5..=6 => Resp::Empty,
         _ => Resp::Err,
     }
 }
 
+/// schedules around the "ongoing update" wait: the first lookup returns only near-expiry paths (no active
+/// path, no error), the worker refetches, callers arriving during the refetch wait for it
+fn gen_refetch(rng: &mut Rng) -> Sched {
+    let threads = if rng.chance(1, 2) { 0 } else { rng.range(2, 4) as usize };
+    let mut ops = vec![];
+    let key = rng.below(2) as usize;
+    ops.push(Op::Spawn { kind: pick_kind(rng), key, n: pick_n(rng).min(8) });
+    if rng.chance(1, 2) {
+        ops.push(Op::Sync);
+    }
+    ops.push(Op::Release { key, resp: Resp::Near });
+    ops.push(Op::Sync);
+    let rounds = rng.range(1, 3);
+    for _ in 0..rounds {
+        ops.push(Op::RefetchWait);
+        // callers arriving while the refetch is ongoing (initialized, ongoing, no active path)
+        ops.push(Op::Spawn { kind: pick_kind2(rng), key, n: pick_n(rng).min(8) });
+        if rng.chance(1, 3) {
+            ops.push(Op::Spawn { kind: Kind::Cached, key, n: 1 });
+        }
+        ops.push(Op::Sync);
+        match rng.below(6) {
+            0 => {
+                ops.push(Op::Stop { key });
+                ops.push(Op::Sync);
+            }
+            1 => {
+                ops.push(Op::DropMgr);
+            }
+            _ => {}
+        }
+        let resp = match rng.below(4) {
+            0 => Resp::Near,
+            1 => Resp::Ok,
+            2 => Resp::Empty,
+            _ => Resp::Err,
+        };
+        ops.push(Op::Release { key, resp });
+        if rng.chance(1, 2) {
+            ops.push(Op::Spawn { kind: pick_kind2(rng), key, n: pick_n(rng).min(8) });
+        }
+        ops.push(Op::Sync);
+        if resp != Resp::Near {
+            break;
+        }
+    }
+    Sched { threads, idle_ms: 0, cap: None, refetch_ms: 40, ops }
+}
+
 fn gen_sched(rng: &mut Rng) -> Sched {
+    if rng.chance(1, 8) {
+        return gen_refetch(rng);
+    }
+    let refetch_ms = 0;
     let threads = if rng.chance(1, 2) { 0 } else { rng.range(2, 4) as usize };
     let idle = rng.chance(1, 8);
     let idle_ms = if idle { 120 } else { 0 };
@@ -1166,13 +1660,14 @@ fn gen_sched(rng: &mut Rng) -> Sched {
                 ops.push(Op::Release { key, resp: pick_resp(rng) });
                 if !dropped && rng.chance(1, 3) {
                     // callers arriving while the lookup completes (result does not depend on the order)
-                    ops.push(Op::Spawn { kind: pick_kind(rng), key, n: pick_n(rng).min(8) });
+                    ops.push(Op::Spawn { kind: pick_kind2(rng), key, n: pick_n(rng).min(8) });
                 }
                 ops.push(Op::Sync);
             }
             4..=6 => {
-                if !dropped {
-                    ops.push(Op::Spawn { kind: pick_kind(rng), key, n: pick_n(rng) });
+                let kind = pick_kind2(rng);
+                if !dropped || kind == Kind::Handle || kind == Kind::HandleOld {
+                    ops.push(Op::Spawn { kind, key, n: pick_n(rng) });
                     ops.push(Op::Sync);
                 }
             }
@@ -1183,7 +1678,7 @@ fn gen_sched(rng: &mut Rng) -> Sched {
                         ops.push(Op::Sync);
                     }
                     if rng.chance(1, 2) {
-                        ops.push(Op::Spawn { kind: pick_kind(rng), key, n: pick_n(rng).min(8) });
+                        ops.push(Op::Spawn { kind: pick_kind2(rng), key, n: pick_n(rng).min(8) });
                         ops.push(Op::Sync);
                     }
                 }
@@ -1217,7 +1712,7 @@ fn gen_sched(rng: &mut Rng) -> Sched {
         ops.push(Op::ReleaseAll { resp: pick_resp(rng) });
         ops.push(Op::IdleWait);
     }
-    Sched { threads, idle_ms, cap: None, ops }
+    Sched { threads, idle_ms, cap: None, refetch_ms, ops }
 }
 
 /// best-effort shrinking: drop operations while the same kind of failure persists
@@ -1271,14 +1766,14 @@ fn main() {
             }
         }).collect();
     } else {
-        let n = args.scale(260, 12000);
+        let n = args.scale(260, 9000);
         for _ in 0..n {
             let mut r = rng.fork();
             schedules.push(("random".into(), gen_sched(&mut r)));
         }
     }
     let t0 = Instant::now();
-    let budget = Duration::from_secs(if args.thorough() { 1500 } else { 150 });
+    let budget = Duration::from_secs(if args.thorough() { 1300 } else { 150 });
     let mut skipped = 0u64;
     for (origin, s) in &schedules {
         if t0.elapsed() > budget {
@@ -1300,6 +1795,12 @@ fn main() {
         rep.hit_n("synchronisation points compared", o.syncs as u64);
         rep.hit_n("witness rebuilt after late quiescence", o.retries as u64);
         rep.hit_n("deferred cancellations (scc reclaim) inferred", o.reclaims as u64);
+        rep.hit_n("callers on a bare handle", o.handle_callers as u64);
+        rep.hit_n("handshake states compared (init/ongoing/error/active per held handle)", o.handle_states as u64);
+        rep.hit_n("handles checked after drop (error, no path)", o.handles_after_drop as u64);
+        for (a, n) in &o.counts {
+            rep.hit_n(&format!("model action {a}"), *n);
+        }
         for (r, n) in &o.results {
             rep.hit_n(&format!("caller result {r}"), *n);
         }
@@ -1310,6 +1811,7 @@ fn main() {
                 Op::Stop { .. } => "op stop_managing_paths".into(),
                 Op::DropMgr => "op drop manager".into(),
                 Op::IdleWait => "op idle expiry".into(),
+                Op::RefetchWait => "op wait for refetch".into(),
                 Op::ReleaseAll { .. } => "op finish all lookups".into(),
                 Op::Sync => "op sync".into(),
             };
@@ -1319,15 +1821,38 @@ fn main() {
             rep.sample(json!({"schedule": line, "callers": o.waiters, "results": o.results, "fetcher_invocations": o.fetches,
                                "model_actions": o.model_actions, "witness_tail": o.trace_tail.iter().rev().take(12).rev().collect::<Vec<_>>() }));
         }
+        // a witness failure that does not reproduce on the same schedule is a timing artefact of the harness (late
+        // quiescence under load, a timer firing at an unexpected moment): recorded, but not a disagreement
+        let mut o = o;
+        if let Some((what, im, mo)) = o.disagree.clone() {
+            let mut reproduced = None;
+            for _ in 0..2 {
+                let o2 = run_sched(s, &mut lean);
+                if o2.disagree.is_some() {
+                    reproduced = Some(o2);
+                    break;
+                }
+            }
+            match reproduced {
+                Some(o2) => o = o2,
+                None => {
+                    rep.hit("transient witness failure (not reproduced in 2 re-runs of the same schedule)");
+                    if rep.notes.len() < 12 {
+                        rep.notes.push(format!("transient: {line} | {what}: impl {im} model {mo} | {:?}", o.cand_mm.iter().take(3).collect::<Vec<_>>()));
+                    }
+                    o.disagree = None;
+                }
+            }
+        }
         if let Some((what, im, mo)) = &o.disagree {
             let small = shrink(s, &mut lean, &|o: &Outcome| o.disagree.is_some());
             let o2 = run_sched(&small, &mut lean);
-            let (w2, i2, m2, tail) = match &o2.disagree {
-                Some((w, i, m)) => (w.clone(), i.clone(), m.clone(), o2.trace_tail.clone()),
-                None => (what.clone(), im.clone(), mo.clone(), o.trace_tail.clone()),
+            let (w2, i2, m2, tail, cm) = match &o2.disagree {
+                Some((w, i, m)) => (w.clone(), i.clone(), m.clone(), o2.trace_tail.clone(), o2.cand_mm.clone()),
+                None => (what.clone(), im.clone(), mo.clone(), o.trace_tail.clone(), o.cand_mm.clone()),
             };
             let ln = if o2.disagree.is_some() { sched_line(&small) } else { line.clone() };
-            rep.disagree("path-manager trace inclusion", json!({"line": ln, "what": w2, "witness_tail": tail}), &i2, &m2);
+            rep.disagree("path-manager trace inclusion", json!({"line": ln, "original": line, "what": w2, "candidates": cm, "witness_tail": tail}), &i2, &m2);
         }
         let mut seen = std::collections::HashSet::new();
         for (key, what) in &o.spec {
